@@ -79,6 +79,9 @@ def build(case):
     builtin = nc.rw.default_reserved_words
     # word list
     nw = rng.randint(1, 12 if rng.random() < 0.3 else 4)
+    if rng.random() < 0.04:
+        # a long list (a customer's site and device names): 90..260 distinct words
+        nw = rng.choice([99, 100, 101, 103, 128, 150, 199, 201, 257]) + rng.randint(0, 3)
     words = []
     # pieces of the multi-word built-in entries ("is variably subnetted"): reserved only as a whole phrase, never alone
     frags = sorted({f for x in builtin if re.search(r"\s", x) for f in x.split()
